@@ -355,8 +355,6 @@ func (s *Sim) spawn(parent *Task, node, inc int, pid, name string, f func()) *Ta
 		id = pid + "#" + strconv.FormatUint(s.envSeq, 10)
 	}
 	t := &Task{ID: id, Node: node, Inc: inc, Name: name, grant: make(chan struct{}, 1), state: stReady, site: "start", sim: s}
-	s.readySq++
-	t.seq = s.readySq
 	s.tasks = append(s.tasks, t)
 	s.mu.Unlock()
 	go func() {
@@ -458,8 +456,7 @@ func (t *Task) park(site string) {
 	}
 	t.state = stReady
 	t.site = site
-	s.readySq++
-	t.seq = s.readySq
+	t.seq = 0
 	s.mu.Unlock()
 	s.poke()
 	<-t.grant
@@ -521,8 +518,7 @@ func (s *Sim) MakeReady(t *Task) {
 	if t.state == stBlocked {
 		t.state = stReady
 		t.waitMutex = nil
-		s.readySq++
-		t.seq = s.readySq
+		t.seq = 0
 	}
 	s.mu.Unlock()
 	s.poke()
@@ -711,9 +707,23 @@ func (s *Sim) RunUntil(deadline time.Duration, cond func() bool) string {
 		}
 		now := s.Now()
 		s.mu.Lock()
+		// Tasks that became ready since the last decision get their FIFO rank
+		// now, in task-id order: the rank must not depend on which of several
+		// runtime-woken goroutines reached its park first.
+		var fresh []*Task
+		for _, t := range s.tasks {
+			if t != nil && t.state == stReady && t.seq == 0 {
+				fresh = append(fresh, t)
+			}
+		}
+		sort.Slice(fresh, func(i, j int) bool { return fresh[i].ID < fresh[j].ID })
+		for _, t := range fresh {
+			s.readySq++
+			t.seq = s.readySq
+		}
 		var ready []choice
 		for _, t := range s.tasks {
-			if t.state == stReady {
+			if t != nil && t.state == stReady {
 				ready = append(ready, choice{t: t, seq: t.seq})
 			}
 		}
@@ -969,21 +979,58 @@ func Select(hasDefault bool, chans ...interface{}) (int, reflect.Value, bool) {
 		order[i] = (i + rot) % n
 	}
 	if s != nil {
-		Yield("select")
+		if t := s.self(); t != nil && t.isDead() {
+			Yield("select") // never returns for a dead task
+		}
 	}
-	// first pass: non-blocking, in priority order; closed channels count as ready
+	// Is anything ready? Only then is this a scheduling point (which of the
+	// ready cases is taken, and what else may become ready first, matters);
+	// an idle poll (default case) or a blocking wait is not.
+	anyReady := false
 	for _, i := range order {
-		if !vals[i].IsValid() || vals[i].IsNil() {
-			continue
-		}
-		cases := []reflect.SelectCase{{Dir: reflect.SelectRecv, Chan: vals[i]}, {Dir: reflect.SelectDefault}}
-		chosen, v, ok := reflect.Select(cases)
-		if chosen == 0 {
-			return i, v, ok
+		if vals[i].IsValid() && !vals[i].IsNil() && vals[i].Len() > 0 {
+			anyReady = true
 		}
 	}
-	if hasDefault {
-		return -1, reflect.Value{}, false
+	if !anyReady {
+		// closed channels and unbuffered channels with a waiting sender are not
+		// visible through Len; probe them without consuming when possible
+		for _, i := range order {
+			if !vals[i].IsValid() || vals[i].IsNil() {
+				continue
+			}
+			if vals[i].Cap() == 0 || true {
+				cases := []reflect.SelectCase{{Dir: reflect.SelectRecv, Chan: vals[i]}, {Dir: reflect.SelectDefault}}
+				chosen, v, ok := reflect.Select(cases)
+				if chosen == 0 {
+					// consumed: hand control back to the scheduler, then deliver
+					if s != nil {
+						Yield("select.got")
+					}
+					return i, v, ok
+				}
+			}
+		}
+		if hasDefault {
+			return -1, reflect.Value{}, false
+		}
+	} else {
+		if s != nil {
+			Yield("select")
+		}
+		for _, i := range order {
+			if !vals[i].IsValid() || vals[i].IsNil() {
+				continue
+			}
+			cases := []reflect.SelectCase{{Dir: reflect.SelectRecv, Chan: vals[i]}, {Dir: reflect.SelectDefault}}
+			chosen, v, ok := reflect.Select(cases)
+			if chosen == 0 {
+				return i, v, ok
+			}
+		}
+		if hasDefault {
+			return -1, reflect.Value{}, false
+		}
 	}
 	cases := make([]reflect.SelectCase, 0, n)
 	idx := make([]int, 0, n)
